@@ -46,11 +46,11 @@ HAZARDS = [
     'simp_int_quot_sum', 'simp_int_quot_product', 'simp_int_quot_like_terms', 'simp_real_div_literal',
     'simp_real_coeff_div_int', 'simp_real_cancel_to_int', 'simp_neg_product', 'simp_real_quot_sum_literal',
     # dead code
-    'simp_cond_int_quot', 'simp_cond_real_literal', 'named_if_exit', 'elseif_true_body_starts_with_if',
+    'simp_cond_int_quot', 'simp_cond_real_literal', 'elseif_false_no_else', 'elseif_true_body_starts_with_if',
     'elseif_true_body_starts_with_block_if', 'elseif_false_else_starts_with_if', 'select_literal_range', 'select_logical',
     # unused vars / args
     'local_kind_param', 'param_in_initializer', 'dummy_only_in_print', 'local_only_in_internal',
-    'dummy_only_in_internal', 'optional_present', 'dummy_only_in_dimension', 'char_len_local', 'sched_both', 'uvars_scalars_with_loops',
+    'dummy_only_in_internal', 'optional_present', 'dummy_only_in_dimension', 'char_len_local', 'sched_both', 'uvars_scalars_with_loops', 'nested_fun_call',
 ]
 
 
@@ -190,10 +190,15 @@ class CPGen:
         if kind == 'merge':
             b, bb = self.ie(d - 1, const)
             return f'merge({a}, {b}, {self.le(d - 1, const)})', max(ba, bb)
-        if kind == 'fun' and not const:
+        if kind == 'fun' and not const and 'hfun(' not in a:
             self.features.add('function_call')
             self.used_helpers.add('hfun')
-            b, bb = self.ie(d - 1, const)
+            for _ in range(5):
+                b, bb = self.ie(d - 1, const)
+                if 'hfun(' not in b:       # nested references are a known finding (hazard nested_fun_call)
+                    break
+            else:
+                b, bb = '2', 2
             u, _ = self.ie(0, const)
             if self.flags['keyword_calls'] and rng.random() < 0.4:
                 self.features.add('keyword_call_arg')
@@ -450,7 +455,7 @@ class CPGen:
             self.features.add('else_if')
             out.append(f'{ind}else if ({self.cond(1)}) then')
             out += self._not_if_first(self.block(ind + '  ', depth - 1, rng.randint(1, 2), ctx), ind + '  ')
-        if rng.random() < 0.6:
+        if nelif or rng.random() < 0.6:
             out.append(f'{ind}else')
             blk = self.block(ind + '  ', depth - 1, rng.randint(1, 3), ctx)
             out += self._not_if_first(blk, ind + '  ') if nelif else blk
@@ -458,8 +463,9 @@ class CPGen:
         return out
 
     def _not_if_first(self, blk, ind):
-        """known finding deadcode:else-if-chain-...: outside its hazard slice, no branch after an ELSE IF starts with IF"""
-        if blk and blk[0].strip().startswith('if '):
+        """known findings deadcode:*else-if*: outside their hazard slices, every branch after an ELSE IF starts with a
+        plain statement (never IF, never empty after pruning) and the construct ends with an ELSE"""
+        if not blk or not re.match(r'\s*(oi|orr|a|b|w|ia|tab|v\d|y\d|c\d|r\d|l\d|tv%t.)\b.* = ', blk[0]):
             return self.tap(ind) + blk
         return blk
 
@@ -580,6 +586,15 @@ class CPGen:
         self.features.add('call_' + c)
         self.used_helpers.add(c)
         ov = rng.choice(self.vint)
+        saved_vint = self.vint
+        self.vint = [v for v in self.vint if v != ov]       # no aliasing of the intent(out|inout) actual
+        try:
+            return self._call(ind, c, ov, kw)
+        finally:
+            self.vint = saved_vint
+
+    def _call(self, ind, c, ov, kw):
+        rng = self.rng
         if c == 'hset':
             x = self.ie_b(2, rng.random() < 0.4, 1000)
             u = self.ie_b(1, rng.random() < 0.5, 1000)
@@ -603,7 +618,9 @@ class CPGen:
             if kw:
                 return [f'{ind}call lsub({x}, {ua}, r={yv}, t={rng.choice(self.kreal + ["x1"])})']
             return [f'{ind}call lsub({x}, {ua}, {rng.choice(self.kreal + ["x1"])}, {yv})']
-        return [f'{ind}call isub({ov}, {self.ie_b(1, rng.random() < 0.5, 100)})']
+        if kw:
+            return [f'{ind}call isub({ov}, q={self.ie_b(1, rng.random() < 0.5, 100)}, iu={self.ie_b(0, True, 100)})']
+        return [f'{ind}call isub({ov}, {self.ie_b(0, True, 100)}, {self.ie_b(1, rng.random() < 0.5, 100)})']
 
     def block(self, ind, depth, n, ctx):
         rng = self.rng
@@ -701,7 +718,7 @@ class CPGen:
             self.used_helpers.add('hinc')
             s = ['hz1 = 4', 'call hinc(hz1, k2, w)', f'oi({T1}) = hz1*2']
         elif hz == 'loop_carried':
-            s = ['hz1 = 3', 'do i = 1, n', '  b(i) = b(i) + real(hz1, 8)', '  hz1 = 5', 'end do', f'oi({T1}) = hz1']
+            s = ['hz1 = 3', 'do i = 1, n', '  tab(1 + mod(i, 5)) = hz1', '  hz1 = 5', 'end do', f'oi({T1}) = hz1 + tab(2) + tab(3)']
         elif hz == 'accumulator':
             s = ['hz1 = 0', 'do i = 1, 3', '  hz1 = hz1 + i', 'end do', f'oi({T1}) = hz1']
         elif hz == 'accumulator_varbound':
@@ -793,9 +810,11 @@ class CPGen:
         elif hz == 'elseif_false_else_starts_with_if':
             s = ['hz1 = k1', 'if (k1 > 100) then', '  hz1 = hz1 + 1', 'else if (.false.) then', '  hz1 = hz1 + 2', 'else', '  if (k2 > 0) then',
                  '    hz1 = hz1 + 4', '  end if', '  hz1 = hz1 + 8', 'end if', f'oi({T1}) = hz1']
-        elif hz == 'named_if_exit':
-            s = ['hz1 = k1', 'hzblk: if (.true.) then', '  hz1 = hz1 + 1', '  if (k1 > 0) exit hzblk', '  hz1 = hz1 + 10',
-                 'end if hzblk', f'oi({T1}) = hz1']
+        elif hz == 'elseif_false_no_else':
+            s = ['hz1 = k1', 'if (k1 > 100) then', '  hz1 = hz1 + 1', 'else if (.false.) then', '  hz1 = hz1 + 2', 'end if', f'oi({T1}) = hz1']
+        elif hz == 'nested_fun_call':
+            self.used_helpers.add('hfun')
+            s = [f'oi({T1}) = hfun(hfun(k1, 1, 2), 3, k2)']
         elif hz == 'select_literal_range':
             s = ['hz1 = k1', 'select case (3)', 'case (1)', '  hz1 = hz1 + 1', 'case (2:5)', '  hz1 = hz1 + 2', 'case default',
                  '  hz1 = hz1 + 4', 'end select', f'oi({T1}) = hz1']
@@ -927,8 +946,8 @@ class CPGen:
             L.append('  contains')
             if 'isub' in self.used_helpers:
                 self.features.add('internal_procedure')
-                L += ['    subroutine isub(p, q)', '      integer, intent(inout) :: p', '      integer, intent(in) :: q',
-                      '      integer :: iu1', f"      p = mod(p + q*{rng.choice(['c1', 'c2', 'np', 'k1'])} + ia(1), 37)",
+                L += ['    subroutine isub(p, iu, q)', '      integer, intent(inout) :: p', '      integer, intent(in) :: iu',
+                      '      integer, intent(in) :: q', '      integer :: iu1', f"      p = mod(p + q*{rng.choice(['c1', 'c2', 'np', 'k1'])} + ia(1), 37)",
                       '      w(n) = w(n)*0.5_8 + r1', '    end subroutine isub']
             L += ['    ' + x for x in self.extra_internal]
         L += ['  end subroutine kern', 'end module cmod']
